@@ -34,7 +34,7 @@ def validate(out, pid, x):
             r2 = sh(['patch', '-p1', '-d', wt, '-i', patch])
             if r2.returncode:
                 return 'patch does not apply: ' + r.stderr[:200]
-        t = sh([PY, '/tmp/wt/runtests.py', wt], timeout=900)
+        t = sh([PY, '/verif/tools_runtests.py', wt], timeout=900)
         if ' passed' not in t.stdout or 'failed' in t.stdout.split('\n')[-2:][0]:
             return 'tests do not pass with the change: ' + t.stdout[-300:]
         for f in os.listdir(os.path.join(wt, 'src/calmjs/parse/parsers')):
@@ -69,7 +69,7 @@ def validate(out, pid, x):
                 'tests_with_change': t.stdout.strip().split('\n')[-1],
                 'demo_with_change': 'exit 1: ' + (a.stdout + a.stderr).strip()[-300:],
                 'demo_on_clean_sources': 'exit 0',
-                'commands': ['git apply patch.diff', '/venv/bin/python /tmp/wt/runtests.py <worktree>', '/venv/bin/python demo.py <worktree>'],
+                'commands': ['git apply patch.diff', '/venv/bin/python /verif/tools_runtests.py <worktree>', '/venv/bin/python demo.py <worktree>'],
                 'against_repo_head': sh(['git', '-C', '/repo', 'rev-parse', '--short', 'HEAD']).stdout.strip(),
             }})
         json.dump(meta, open(os.path.join(dest, 'meta.json'), 'w'), indent=1)
